@@ -5,7 +5,7 @@ from .. import gen
 LEAN_MODULES = ["Shm.Props.C13"]
 GEN_TABLES = ["ClassTable.lean", "AttrUpdate.lean", "Access.lean", "MechTable.lean"]
 LEVEL = "proof"
-OPS = {"wrap", "unwrap", "derive", "kcv", "getattr", "find", "findinit"}
+OPS = {"wrap", "unwrap", "derive", "kcv", "getattr", "find", "findinit", "destroy"}
 RULE = ("K13: seeded histories with keys whose values the model knows (AES-128/192/256 wrapping keys; AES, generic (1..64 bytes, block multiples or not), DES2/DES3 target keys; an "
         "imported EC P-256 private key and an imported Diffie-Hellman key (Oakley group 2) with known private values; generated RSA and EC pairs): C_WrapKey with "
         "CKM_AES_KEY_WRAP / _PAD / AES_CBC_PAD / AES_CBC (+ RSA PKCS / OAEP and AES-wrapped PKCS#8 as round trips through the library), with NULL / too small / large buffers; "
@@ -31,7 +31,15 @@ def sig_of(m):
 def run_k(ctx, kres):
     n, ops = (32, 40) if ctx.quick else (500, 80)
     traces = [Trace("wrap%d" % i, gen.wrap_history(ctx.seed * 67867967 + i, ops)) for i in range(n)]
-    return k_suite(ctx, kres, "K13-wrap-unwrap-derive", traces, in_projection, sig_of=sig_of)
+    v = k_suite(ctx, kres, "K13-wrap-unwrap-derive", traces, in_projection, sig_of=sig_of)
+    # unit level: DERUTIL::raw2Octet / octet2Raw, SoftHSM::getECDHPubData, RFC5652Pad / RFC5652Unpad / RFC3394Pad, the DES parity table, ByteString::bits
+    from .. import pure, gen2, ksuites
+    v += pure.run_group(ctx, kres, "K13-pure-helpers", "der", 300 if ctx.quick else 6000)
+    # every key kind x every PRIVATE / EXTRACTABLE / SENSITIVE / TOKEN choice of the unwrap template: resulting flags by the model, values against the wrapped key
+    mt, ncell = gen2.c13_unwrap_matrix(ctx.seed, sample=180 if ctx.quick else None)
+    v += k_suite(ctx, kres, "K13-unwrap-matrix", [Trace("unwrap-matrix", mt)], in_projection, sig_of=sig_of, direct=ksuites.samevalues_direct)
+    kres["notes"].append("K13-unwrap-matrix: %d unwrap cells" % ncell)
+    return v
 
 
 def judge(ctx, results):
